@@ -13,11 +13,32 @@ type sqlDB struct {
 	handler Value
 	nextTx  int
 	closed  bool
+	// the connection pool of database/sql: a statement outside a transaction runs on
+	// the most recently freed connection (or a new one, configured by the DSN only);
+	// a transaction pins its connection until it ends
+	dsn      string
+	nextConn int
+	free     []int
 }
+
+// acquire takes a connection the way database/sql does (LIFO free list, else a new one).
+func (ex *Exec) sqlAcquire(fr *frame, d *sqlDB) int {
+	if n := len(d.free); n > 0 {
+		id := d.free[n-1]
+		d.free = d.free[:n-1]
+		return id
+	}
+	d.nextConn++
+	ex.sqlCall(fr, d, "open", d.dsn, 0, d.nextConn)
+	return d.nextConn
+}
+
+func (d *sqlDB) release(id int) { d.free = append(d.free, id) }
 
 type sqlTx struct {
 	db   *sqlDB
 	id   int
+	conn int
 	done bool
 	ctx  *nativeCtx // the context the transaction was begun with (database/sql rolls it back when that context ends)
 }
@@ -54,8 +75,8 @@ func (ex *Exec) sqlTxOf(v Value) *sqlTx {
 }
 
 // sqlCall invokes the harness handler with one event.
-func (ex *Exec) sqlCall(fr *frame, d *sqlDB, kind, q string, tx int) (structure, iface) {
-	ev := structure{kind, q, K(64, uint64(tx))}
+func (ex *Exec) sqlCall(fr *frame, d *sqlDB, kind, q string, tx int, conn int) (structure, iface) {
+	ev := structure{kind, q, K(64, uint64(tx)), K(64, uint64(conn))}
 	out := ex.call(fr, 0, d.handler, []Value{ev}).(structure)
 	if msg := out[0].(string); msg != "" {
 		return out, ex.newErr(msg)
@@ -83,12 +104,24 @@ func registerSQL(e *Engine) {
 		m[&cell] = &sqlDB{handler: args[0]}
 		return &cell
 	})
+	e.reg(vxPath+".SQLOpenDSN", func(ex *Exec, fr *frame, args []Value) Value {
+		var cell Value = zero(deref(fr.fn.Signature.Results().At(0).Type()))
+		m, _ := ex.ghost["sqldb"].(map[*Value]*sqlDB)
+		if m == nil {
+			m = map[*Value]*sqlDB{}
+			ex.ghost["sqldb"] = m
+		}
+		m[&cell] = &sqlDB{handler: args[0], dsn: argStr(ex, args[1])}
+		return &cell
+	})
 	e.reg("(*database/sql.DB).BeginTx", func(ex *Exec, fr *frame, args []Value) Value {
 		d := ex.sqlDBOf(args[0])
 		d.nextTx++
 		id := d.nextTx
-		_, err := ex.sqlCall(fr, d, "begin", "", id)
+		conn := ex.sqlAcquire(fr, d)
+		_, err := ex.sqlCall(fr, d, "begin", "", id, conn)
 		if err.t != nil {
+			d.release(conn)
 			return tuple{(*Value)(nil), err}
 		}
 		var cell Value = zero(deref(fr.fn.Signature.Results().At(0).Type()))
@@ -97,7 +130,7 @@ func registerSQL(e *Engine) {
 			m = map[*Value]*sqlTx{}
 			ex.ghost["sqltx"] = m
 		}
-		t := &sqlTx{db: d, id: id}
+		t := &sqlTx{db: d, id: id, conn: conn}
 		if it, ok := args[1].(iface); ok {
 			t.ctx, _ = it.v.(*nativeCtx)
 		}
@@ -106,7 +139,9 @@ func registerSQL(e *Engine) {
 	})
 	execDB := func(ex *Exec, fr *frame, args []Value, qi int) Value {
 		d := ex.sqlDBOf(args[0])
-		_, err := ex.sqlCall(fr, d, "exec", argStr(ex, args[qi]), 0)
+		conn := ex.sqlAcquire(fr, d)
+		_, err := ex.sqlCall(fr, d, "exec", argStr(ex, args[qi]), 0, conn)
+		d.release(conn)
 		if err.t != nil {
 			return tuple{iface{}, err}
 		}
@@ -114,16 +149,23 @@ func registerSQL(e *Engine) {
 	}
 	e.reg("(*database/sql.DB).ExecContext", func(ex *Exec, fr *frame, args []Value) Value { return execDB(ex, fr, args, 2) })
 	e.reg("(*database/sql.DB).Exec", func(ex *Exec, fr *frame, args []Value) Value { return execDB(ex, fr, args, 1) })
-	queryRow := func(ex *Exec, fr *frame, d *sqlDB, q string, tx int) Value {
-		res, err := ex.sqlCall(fr, d, "query", q, tx)
+	queryRow := func(ex *Exec, fr *frame, d *sqlDB, q string, tx int, conn int) Value {
+		own := conn == 0
+		if own {
+			conn = ex.sqlAcquire(fr, d)
+		}
+		res, err := ex.sqlCall(fr, d, "query", q, tx, conn)
+		if own {
+			d.release(conn)
+		}
 		var cell Value = native{obj: &sqlRow{res: res, err: err}}
 		return &cell
 	}
 	e.reg("(*database/sql.DB).QueryRowContext", func(ex *Exec, fr *frame, args []Value) Value {
-		return queryRow(ex, fr, ex.sqlDBOf(args[0]), argStr(ex, args[2]), 0)
+		return queryRow(ex, fr, ex.sqlDBOf(args[0]), argStr(ex, args[2]), 0, 0)
 	})
 	e.reg("(*database/sql.DB).QueryRow", func(ex *Exec, fr *frame, args []Value) Value {
-		return queryRow(ex, fr, ex.sqlDBOf(args[0]), argStr(ex, args[1]), 0)
+		return queryRow(ex, fr, ex.sqlDBOf(args[0]), argStr(ex, args[1]), 0, 0)
 	})
 	e.reg("(*database/sql.Row).Scan", func(ex *Exec, fr *frame, args []Value) Value {
 		row := (*args[0].(*Value)).(native).obj.(*sqlRow)
@@ -163,7 +205,7 @@ func registerSQL(e *Engine) {
 		if t.done {
 			return tuple{iface{}, ex.errTxDone()}
 		}
-		_, err := ex.sqlCall(fr, t.db, "exec", argStr(ex, args[qi]), t.id)
+		_, err := ex.sqlCall(fr, t.db, "exec", argStr(ex, args[qi]), t.id, t.conn)
 		if err.t != nil {
 			return tuple{iface{}, err}
 		}
@@ -173,7 +215,7 @@ func registerSQL(e *Engine) {
 	e.reg("(*database/sql.Tx).Exec", func(ex *Exec, fr *frame, args []Value) Value { return execTx(ex, fr, args, 1) })
 	e.reg("(*database/sql.Tx).QueryRowContext", func(ex *Exec, fr *frame, args []Value) Value {
 		t := ex.sqlTxOf(args[0])
-		return queryRow(ex, fr, t.db, argStr(ex, args[2]), t.id)
+		return queryRow(ex, fr, t.db, argStr(ex, args[2]), t.id, t.conn)
 	})
 	end := func(kind string) intrinsic {
 		return func(ex *Exec, fr *frame, args []Value) Value {
@@ -182,7 +224,8 @@ func registerSQL(e *Engine) {
 				return ex.errTxDone()
 			}
 			t.done = true
-			_, err := ex.sqlCall(fr, t.db, kind, "", t.id)
+			_, err := ex.sqlCall(fr, t.db, kind, "", t.id, t.conn)
+			t.db.release(t.conn)
 			return err
 		}
 	}
@@ -192,7 +235,7 @@ func registerSQL(e *Engine) {
 		d := ex.sqlDBOf(args[0])
 		if !d.closed {
 			d.closed = true
-			ex.sqlCall(fr, d, "close", "", 0)
+			ex.sqlCall(fr, d, "close", "", 0, 0)
 		}
 		return iface{}
 	})
@@ -224,6 +267,7 @@ func (ex *Exec) sqlContextCancelled(c *nativeCtx) {
 	sort.Slice(txs, func(i, j int) bool { return txs[i].id < txs[j].id })
 	for _, t := range txs {
 		t.done = true
-		ex.sqlCall(nil, t.db, "rollback", "", t.id)
+		ex.sqlCall(nil, t.db, "rollback", "", t.id, t.conn)
+		t.db.release(t.conn)
 	}
 }
